@@ -1034,6 +1034,8 @@ open Ign.Git in
 open Ign.Git in
 #print axioms C16_batch_file_rule_dropped_only_inside_ignored_dir
 open Ign.Git in
+#print axioms C16_component_filter_sound
+open Ign.Git in
 #print axioms C16_batch_every_queued_file_ignored
 open Ign.Git in
 #print axioms C16_string_prefix_filter_counterexample
